@@ -2,7 +2,7 @@ from checks._world_common import ASSUMPTIONS, COMPONENTS, make, simplify_knobs, 
 
 PROP = "C02"
 LEVEL = "exploration"
-RUNS = {"quick": 6000, "thorough": 120000}
+RUNS = {"quick": 4500, "thorough": 120000}
 BUDGET_S = {"quick": 50, "thorough": 840}
 CHUNK = 50
 RULE = ("One evaluation = one seeded history that leaves mixed backend states (pending, running, failed, cancelled, finished, purged) followed by `gwf run [patterns]`; the submissions received by the simulated scheduler (job name, dependency ids parsed by the scheduler's own grammar) must equal M_plan: cone of the selection, exactly {failed, cancelled, shouldrun}, each once, after its same-run prerequisites, prerequisite ids = ids of exactly the incomplete direct dependencies (new id if resubmitted in this run, tracked id if in flight). Non-trivial = at least one run was checked; distinct = different digest.")
